@@ -1,10 +1,25 @@
 mod c04;
 mod c04gen;
+mod c01;
 mod c05;
+mod c09;
+mod c06;
+mod c10;
+mod c11;
+mod c12;
 mod c15;
 mod c20;
 mod crash;
 mod jsonspan;
+mod dump;
+mod progen;
+mod godump;
+mod goparse;
+mod c17;
+mod c19;
+mod goscope;
+mod c13;
+mod c16;
 mod probe;
 mod rng;
 mod sexp;
@@ -19,9 +34,19 @@ fn main() {
     let args = util::parse_args(&argv[2..]);
     match argv[1].as_str() {
         "c04" => c04::main(&args),
+        "c01" => c01::main(&args),
         "c05" => c05::main(&args),
+        "c09" => c09::main(&args),
+        "c06" => c06::main(&args),
+        "c10" => c10::main(&args),
+        "c12" => c12::main(&args),
         "c15" => c15::main(&args),
         "c20" => c20::main(&args),
+        "c11" => c11::main(&args),
+        "c17" => c17::main(&args),
+        "c19" => c19::main(&args),
+        "c13" => c13::main(&args),
+        "c16" => c16::main(&args),
         "probe" => probe::main(&args),
         "stages" => probe::stages(&args),
         "golden" => probe::golden(&args),
